@@ -35,6 +35,10 @@ import (
 //	            several Files, second and third calls with extra entries on some of them, the
 //	            caller changing its map in between; twins, other orders of building the Files.
 //
+//	save-over-earlier  (c07_save.go) a recipe saved with File.Save over different earlier contents
+//	            of the target (none, identical, extended, truncated, changed, unrelated): the same
+//	            bytes on disk every time.
+//
 //	mixed-keys  (c07_mixed.go) one Dict with keys of DIFFERENT KINDS - integer literals whose
 //	            numeric and textual orders disagree next to expressions, typed literals, floats,
 //	            strings, identifiers, Quals, composite literals - rendered 4..8 times per build,
@@ -598,6 +602,8 @@ func (c07) Generate(r *rand.Rand, t string) []*Case {
 			c.Tags = append(c.Tags, "cross-process-builds=3")
 		}
 	}
+	// stream save-over-earlier (c07_save.go): this process only (the directories are made here)
+	cases = append(cases, c07SaveOverCases(sub, t)...)
 	return cases
 }
 
@@ -771,6 +777,12 @@ func (c07) Oracle(c *Case, got []hist.Obs) string {
 		// stream shared-names-map (c07_names.go): the caller's maps are intact, twins agree,
 		// other orders of building the Files give every File the same bytes
 		if m := c07NamesCheck(c, got); m != "" {
+			return m
+		}
+	}
+	if _, ok := c.Meta["c07save"]; ok {
+		// stream save-over-earlier (c07_save.go): the same construction saved over different earlier contents
+		if m := c07SaveOverCheck(c, got); m != "" {
 			return m
 		}
 	}
